@@ -229,11 +229,8 @@ func cmdReplayConc(args []string) int {
 			}
 			res.Cases++
 			res.Applicable["C13"]++
-			p := pols[c.Rid]
-			if p == nil {
-				p = BuildReal(fam.Recipes[c.Rid-1])
-				pols[c.Rid] = p
-			}
+			p := BuildReal(fam.Recipes[c.Rid-1]) // a fresh twin per schedule (a change may make policies grow with use)
+			_ = pols
 			dids := intsOfTLC(c.Dids)
 			inputs := [][]byte{}
 			for _, d := range dids {
